@@ -232,8 +232,15 @@ def slot_rules(ctx, ev):
     R.rule("C10-D3a duplicate rejection", 3, "a URI already present raises before anything is recorded")
     dup = [r for r in raises if any(isinstance(c, App) and c.op == "in" and c.args[0] == uri for c in r.conds)]
     ok = bool(dup)
+    # `uri in self` with a __contains__ of the class that is `item in self.uris` is the same test
+    containers = [App("attr:uris", (SELF,))]
+    cm = fi.cls.methods.get("__contains__") if fi.cls is not None else None
+    if cm is not None and len(cm.params()) == 2:
+        couts = [o_ for o_ in ev.outcomes(cm) if o_.kind == "return"]
+        if len(couts) == 1 and couts[0].value == App("in", (P(cm.params()[1]), App("attr:uris", (SELF,)))) and not couts[0].conds:
+            containers.append(SELF)
     R.check("C10-D3a duplicate rejection", ok and all(_exc(r) == "ValueError" for r in dup)
-            and all(c.args[1] == App("attr:uris", (SELF,)) for r in dup for c in r.conds if isinstance(c, App) and c.op == "in"),
+            and all(c.args[1] in containers for r in dup for c in r.conds if isinstance(c, App) and c.op == "in"),
             "uri in self.uris -> ValueError", mod=fi.module, node=fi.node, function=fq, expected="raise ValueError", found=f"{len(dup)} rejecting paths")
     for r in dup:
         recorded = [e for e in all_effects(r.effects) if isinstance(e, App) and (
